@@ -71,3 +71,38 @@ func VerifC13apps() {
 	v.AssertK(c13same(ax, fx, ay, fy), "next-block-reads-the-same-record-on-both-nodes",
 		v.Known("C13-K1", activity == 2), v.Known("C13-K2", activity == 3))
 }
+
+// VerifC13warm: consensus itself must keep the node-local cache in step with the state. Node Y
+// executed the previous block (one arbitrary state-changing operation of the application module on
+// an arbitrary record) and keeps its application cache; node X restarted afterwards (cold cache)
+// over the same committed state. The next block reads the application on both: same record.
+func VerifC13warm() {
+	w := awNew()
+	app := w.arbitraryApp(0)
+	w.install(app)
+	w.fund(w.addrs[0])
+	y := w.k // warm: the keeper that executes the block
+	switch v.Choice(6) {
+	case 0:
+		y.unstakeAllMatureApplications(w.ctx)
+	case 1:
+		y.JailApplication(w.ctx, w.addrs[0])
+	case 2:
+		if !app.IsUnstaked() {
+			_ = y.ForceApplicationUnstake(w.ctx, app)
+		}
+	case 3:
+		if y.ValidateApplicationBeginUnstaking(w.ctx, app) == nil {
+			y.BeginUnstakingApplication(w.ctx, app)
+		}
+	case 4:
+		y.DeleteApplication(w.ctx, w.addrs[0])
+	case 5:
+		y.UnjailApplication(w.ctx, w.addrs[0])
+	}
+	x := w.k
+	x.ApplicationCache = sdk.NewCache(10) // restarted node
+	ax, fx := x.GetApplication(w.ctx, w.addrs[0])
+	ay, fy := y.GetApplication(w.ctx, w.addrs[0])
+	v.Assert(c13same(ax, fx, ay, fy), "warm-and-restarted-node-read-the-same-record")
+}
